@@ -19,6 +19,8 @@
   d = 0 (add: E = Ea + N; sub: zero) and d = N (sub: E = Eb) — 1, u, …, u^(N-1) with u = 2^(1/N) are linearly
   independent over Q — and these are decided symbolically, so the interval evaluation is only asked about
   irrational targets; it answers `none` (reported, never silently accepted) if its two bounds disagree.
+  Soundness of this evaluation (floorLog, pow2Frac, pow2Neg, magOf) is PROVED in
+  UVerifProofs/Lemmas/Lns{Log,Exp,Mag}Sound.lean (theorem C09_addsub_spec_sound).
 -/
 import UVerif.Basic
 
@@ -154,13 +156,16 @@ def Ival.mul (x y : Ival) : Ival := ⟨(x.lo * y.lo) >>> P, ((x.hi * y.hi) >>> P
 
 def one : Nat := 2 ^ P
 
-/-- enclosures of 2^(1/2), 2^(1/4), …, 2^(1/2^r) (index 0 ↦ 2^(1/2)). -/
-def rootsOfTwo : Nat → Ival → List Ival → Option (List Ival)
+/-- successive square roots with a given (checked) square-root function: cur ↦ √cur ↦ √√cur ↦ … (k times) -/
+def rootsOfTwoWith (sq : Ival → Option Ival) : Nat → Ival → List Ival → Option (List Ival)
   | 0, _, acc => some acc.reverse
   | k + 1, cur, acc =>
-    match cur.sqrt with
+    match sq cur with
     | none => none
-    | some s => rootsOfTwo k s (s :: acc)
+    | some s => rootsOfTwoWith sq k s (s :: acc)
+
+/-- enclosures of 2^(1/2), 2^(1/4), …, 2^(1/2^r) (index 0 ↦ 2^(1/2)). -/
+def rootsOfTwo : Nat → Ival → List Ival → Option (List Ival) := rootsOfTwoWith Ival.sqrt
 
 /-- the root lists for rbits = 0 … 40, built once (a closed constant of the compiled driver). -/
 def rootsTable : Array (Option (List Ival)) :=
